@@ -710,8 +710,10 @@ class Recon:
             # not inlined, but if every return value is a struct instance, keep that type information
             r = self.inline(fdef, args, kws, depth + 1)
             alts = r[1] if r[0] == "join" else (r,)
-            if alts and all(a[0] == "inst" for a in alts):
-                return r
+            if alts and all(a[0] == "inst" for a in alts) and len({a[1] for a in alts}) == 1:
+                # the instance is identified by the call (callee + arguments), not by the read site inside
+                a0 = alts[0]
+                return ("inst", a0[1], S.call(key, args, kws)) + tuple(a0[3:])
         return S.call(key, args, kws)
 
     def inline(self, fdef: ast.FunctionDef, args, kws, depth, force=False):
